@@ -431,7 +431,7 @@ func checkSlash(c *core.Ctx) {
 	// EndBlock remainder
 	if end := c.MustFn("C01.slash", "(*coreV2/minter.Blockchain).EndBlock"); end != nil {
 		ok := false
-		for _, s := range core.Sites(end) {
+		for _, s := range c.GroupSites(end) {
 			if strings.HasSuffix(s.Callee, ".AddTotalSlashed") {
 				// remainder := Set(rewardWithTxs); remainder.Sub(remainder, r) in the loop
 				if core.DependsOn(s.Arg(0), func(v ssa.Value) bool {
